@@ -22,10 +22,45 @@ fn viol(t: &mut Tally, monitor: &str, sig: &str, detail: String, extra: J) {
     });
 }
 
+const STYLES: u8 = 5;
+
 fn secret_of_len(r: &mut Rng, len: usize, style: u8) -> String {
     match style {
         0 => "A".repeat(len),
         1 => r.string_from(B64ISH, len),
+        3 => {
+            // white space and control characters at the edges and inside: a secret is an opaque string
+            let mut s: Vec<u8> = r.string_from(B64ISH, len).into_bytes();
+            let ws = b" \t\n\r\x0b\x0c\0";
+            if len > 0 {
+                let n = s.len();
+                s[n - 1] = *r.pick(ws);
+                if len > 1 && r.coin() {
+                    s[0] = *r.pick(ws);
+                }
+                if len > 2 && r.coin() {
+                    s[n / 2] = *r.pick(ws);
+                }
+                if len > 1 && r.coin() {
+                    s[n - 2] = *r.pick(ws);
+                }
+            }
+            String::from_utf8(s).unwrap()
+        }
+        4 => {
+            // Unicode white space (U+00A0, U+3000, U+2028) and letters that change under case mapping at the end
+            let tails = ["\u{a0}", "\u{3000}", "\u{2028}", "\u{85}", "ß", "İ"];
+            let tail = *r.pick(&tails);
+            let mut s = String::new();
+            if tail.len() <= len {
+                s = r.string_from(B64ISH, len - tail.len());
+                s.push_str(tail);
+            }
+            while s.len() < len {
+                s.insert(0, 'q');
+            }
+            s
+        }
         _ => {
             // multi-byte content: pad to the exact byte length
             let mut s = String::new();
@@ -47,7 +82,7 @@ fn secret_of_len(r: &mut Rng, len: usize, style: u8) -> String {
 /// from_str for capacity M with byte lengths 0..=M+8: Ok iff len + 4 <= M, Err(KeyTooLongError) otherwise, no panic.
 fn capacity_probe<const M: usize>(t: &mut Tally, r: &mut Rng) {
     for len in 0..=(M + 8) {
-        for style in 0..3u8 {
+        for style in 0..STYLES {
             let s = secret_of_len(r, len, style);
             let res = catch_unwind(AssertUnwindSafe(|| KSecretKey::<M>::from_str(&s)));
             t.eval();
@@ -188,7 +223,7 @@ fn shard(seed: u64, shard: u64, shards: u64, tier: Tier) -> Tally {
     // every secret length 0..=40 (capacity of the default key type) × 3 contents, on a fixed date
     if shard == 1 % shards {
         for len in 0..=40usize {
-            for style in 0..3u8 {
+            for style in 0..STYLES {
                 let s = secret_of_len(&mut r, len, style);
                 chain(&mut t, &s, 2015, 8, 30, "us-east-1", "iam");
             }
@@ -208,7 +243,7 @@ fn shard(seed: u64, shard: u64, shards: u64, tier: Tier) -> Tally {
                     continue;
                 }
                 let s = if k % 7 == 0 {
-                    secret_of_len(&mut r, (k % 41) as usize, (k % 3) as u8)
+                    secret_of_len(&mut r, (k % 41) as usize, (k % STYLES as u64) as u8)
                 } else {
                     "wJalrXUtnFEMI/K7MDENG+bPxRfiCYEXAMPLEKEY".to_string()
                 };
@@ -227,7 +262,7 @@ fn shard(seed: u64, shard: u64, shards: u64, tier: Tier) -> Tally {
         let m = r.range(1, 12) as u32;
         let d = r.range(1, days_in_month(y as i64, m as i64)) as u32;
         let len = r.usize_below(41);
-        let style = r.below(3) as u8;
+        let style = r.below(STYLES as u64) as u8;
         let s = secret_of_len(&mut r, len, style);
         let region = match r.below(6) {
             0 => "r".repeat(1024),
@@ -256,10 +291,10 @@ pub fn run(tier: Tier) -> i32 {
     let lens = (0..=40).filter(|l| tally.get(&format!("chains_secret_len/{}", l)) > 0).count() as u64;
     ctx.gate("secret lengths 0–40 each derived and compared at least once", lens, 41);
     for m in [5usize, 8, 20, 44, 64, 128] {
-        ctx.gate(&format!("capacity {}: fitting secrets accepted", m), tally.get(&format!("capacity_ok/M{}", m)), ((m - 4 + 1) * 3) as u64);
+        ctx.gate(&format!("capacity {}: fitting secrets accepted", m), tally.get(&format!("capacity_ok/M{}", m)), ((m - 4 + 1) * STYLES as usize) as u64);
     }
     for m in [0usize, 1, 2, 3, 4, 5, 8, 20, 44, 64, 128] {
-        ctx.gate(&format!("capacity {}: too-long secrets refused", m), tally.get(&format!("capacity_refused/M{}", m)), 8 * 3);
+        ctx.gate(&format!("capacity {}: too-long secrets refused", m), tally.get(&format!("capacity_refused/M{}", m)), 8 * STYLES as u64);
     }
     ctx.gate("derivation routes compared", tally.get("routes_compared"), tier.n(100_000, 10_000_000));
     ctx.gate("leap days derived", tally.get("leap_days"), tier.n(2, 3));
@@ -268,7 +303,7 @@ pub fn run(tier: Tier) -> i32 {
     ctx.exhaustive("every calendar day of the listed years", true);
     let rep = Report {
         level: "exploration",
-        rule: "Direct calls of the key API under panic capture: KSecretKey::<M>::from_str for 11 capacities × every byte length 0…M+8 × 3 contents (ASCII run, random base64-like, multi-byte UTF-8); for the default capacity every secret length 0–40 and every calendar day of years 1, 2000, 2024, 9999 (thorough: also 4, 999, 1000, 1900, 2023, 2100) plus random days in 1–9999, regions/services incl. empty, 1 KiB, multi-byte, embedded NUL/newline; all 10 derivation routes compared with an independent HMAC-SHA256 chain, read-back of the secret, copy equality. Distinct = distinct (secret, date, region, service) tuples whose 10 routes all matched, plus distinct (capacity, length, content) probes decided correctly.".into(),
+        rule: "Direct calls of the key API under panic capture: KSecretKey::<M>::from_str for 11 capacities × every byte length 0…M+8 × 5 contents (ASCII run, random base64-like, multi-byte UTF-8, ASCII white space / control characters at the edges and inside, Unicode white space or case-mapping letters at the end); for the default capacity every secret length 0–40 and every calendar day of years 1, 2000, 2024, 9999 (thorough: also 4, 999, 1000, 1900, 2023, 2100) plus random days in 1–9999, regions/services incl. empty, 1 KiB, multi-byte, embedded NUL/newline; all 10 derivation routes compared with an independent HMAC-SHA256 chain, read-back of the secret, copy equality. Distinct = distinct (secret, date, region, service) tuples whose 10 routes all matched, plus distinct (capacity, length, content) probes decided correctly.".into(),
         assumptions: vec!["the harness's own SHA-256/HMAC (self-tested on FIPS 180-4 / RFC 4231 vectors and the AWS key-derivation example)".into()],
         extra: J::obj().set("calibrated_vectors", J::i(pre.unwrap_or(0) as i64)),
     };
